@@ -1,4 +1,4 @@
-//@unit U18 props=C09,C15 rlimit=100 RenetClient::update: time, stale fragments, the 3-second sent-packet horizon (renet/src/remote_connection.rs)
+//@unit U18 props=C08,C09,C11,C15 rlimit=100 RenetClient::update: time, stale fragments, the 3-second sent-packet horizon (renet/src/remote_connection.rs)
 #![feature(allocator_api)]
 #![allow(unused_imports, dead_code, unused_variables, unused_mut)]
 use vstd::prelude::*;
